@@ -37,6 +37,7 @@ import (
 	"github.com/LemoFoundationLtd/lemochain-core/chain/deputynode"
 	"github.com/LemoFoundationLtd/lemochain-core/chain/types"
 	"github.com/LemoFoundationLtd/lemochain-core/common"
+	"github.com/LemoFoundationLtd/lemochain-core/common/rlp"
 	"github.com/LemoFoundationLtd/lemochain-core/common/subscribe"
 	"github.com/LemoFoundationLtd/lemochain-core/network"
 )
@@ -420,6 +421,10 @@ func (h *c19Hammer) round(round int) {
 			if d.mined != nil {
 				known.Store(d.mined.Hash(), d.mined.Height())
 				h.count("hammer:mined-blocks", 1)
+				// the header signature of a block this node mined must be its own signature over that block
+				if id, err := d.mined.SignerNodeID(); err != nil || !bytes.Equal(id, selfID) {
+					h.fail(round, "c19/mined-block-invalid-signature", fmt.Sprintf("MineBlock returned block %d:%x whose header signature is not this node's signature over its hash (err=%v)", d.mined.Height(), d.mined.Hash().Bytes()[:4], err))
+				}
 			}
 			record(d)
 			time.Sleep(3 * time.Millisecond)
@@ -476,7 +481,22 @@ func (h *c19Hammer) round(round int) {
 							}
 						}
 					}
-					a.BC.GetBlockByHeight(hd.Height())
+					// what a network / RPC thread does with a block it was handed (ProtocolManager.respBlocks:
+					// ShallowCopy + RLP encoding for the peer): it reads the Confirms of the shared *types.Block
+					for _, blk := range []*types.Block{hd, a.BC.GetBlockByHeight(hd.Height()), a.BC.GetBlockByHeight(st.Height() + 1)} {
+						if blk == nil {
+							continue
+						}
+						cp := blk.ShallowCopy()
+						if _, err := rlp.EncodeToBytes(cp); err != nil {
+							h.fail(round, "c19/reader-encode-failed", "RLP encoding of a block handed out by the chain failed: "+err.Error())
+						}
+						for _, sg := range cp.Confirms {
+							if _, err := sg.RecoverNodeID(cp.Hash()); err != nil {
+								h.fail(round, "c19/reader-invalid-confirm", fmt.Sprintf("a block handed out by the chain (height %d) carries a confirm that does not recover", cp.Height()))
+							}
+						}
+					}
 					// account reads in the view of the stable block and of the head
 					am := account.NewManager(st.Hash(), a.DB)
 					for _, u := range sc.users {
